@@ -154,6 +154,17 @@ bool splinetable<Alloc>::read_fits_mem(void* buffer, size_t buffer_size){
 	
 template<typename Alloc>
 bool splinetable<Alloc>::read_fits_core(fitsfile* fits, const std::string& filePath){
+	try{
+		return(read_fits_core_impl(fits, filePath));
+	}catch(...){
+		//do not leave a half-constructed table behind
+		clear();
+		throw;
+	}
+}
+
+template<typename Alloc>
+bool splinetable<Alloc>::read_fits_core_impl(fitsfile* fits, const std::string& filePath){
 	int error = 0;
 	//if (error != 0)
 	//	throw std::runtime_error("Failed to move to HDU 1 in "+filePath);
@@ -289,8 +300,10 @@ bool splinetable<Alloc>::read_fits_core(fitsfile* fits, const std::string& fileP
 	//arrays which don't depend on the orders or numbers of knots before the
 	//ones which do
 	knots = allocate<double_ptr>(ndim);
+	std::fill(knots,knots+ndim,nullptr);
 	nknots = allocate<uint64_t>(ndim);
 	extents = allocate<double_ptr>(ndim);
+	extents[0] = nullptr;
 	extents[0] = allocate<double>(2*ndim);
 	
 	//Read the coefficient table
